@@ -213,7 +213,14 @@ fn alpha_beta_minimax(
     #[cfg(feature = "verif-hooks")]
     crate::verif_hooks::emit(crate::verif_hooks::Event::BeforeCounterBump);
     {
+        #[cfg(feature = "verif-hooks")]
+        let _released = crate::verif_hooks::lock_release_note("searched_position_count", true);
         let mut count = context.searched_position_count.write().unwrap();
+        #[cfg(feature = "verif-hooks")]
+        crate::verif_hooks::emit(crate::verif_hooks::Event::LockAcquired {
+            lock: "searched_position_count",
+            write: true,
+        });
         *count += 1;
     }
 
@@ -309,7 +316,14 @@ fn set_cache(context: &mut SearchContext, search_node: SearchNode, score: i16) {
         beta: search_node.4,
         score,
     });
+    #[cfg(feature = "verif-hooks")]
+    let _released = crate::verif_hooks::lock_release_note("search_result_cache", true);
     let mut cache = context.search_result_cache.write().unwrap();
+    #[cfg(feature = "verif-hooks")]
+    crate::verif_hooks::emit(crate::verif_hooks::Event::LockAcquired {
+        lock: "search_result_cache",
+        write: true,
+    });
     cache.insert(search_node, score);
 }
 
@@ -322,10 +336,24 @@ fn check_cache(context: &mut SearchContext, search_node: SearchNode) -> Option<i
         alpha: search_node.3,
         beta: search_node.4,
     });
+    #[cfg(feature = "verif-hooks")]
+    let _released = crate::verif_hooks::lock_release_note("search_result_cache", false);
     let cache = context.search_result_cache.read().unwrap();
+    #[cfg(feature = "verif-hooks")]
+    crate::verif_hooks::emit(crate::verif_hooks::Event::LockAcquired {
+        lock: "search_result_cache",
+        write: false,
+    });
     match cache.get(&search_node) {
         Some(&prev_best_score) => {
+            #[cfg(feature = "verif-hooks")]
+            let _hit_released = crate::verif_hooks::lock_release_note("cache_hit_count", true);
             let mut count = context.cache_hit_count.write().unwrap();
+            #[cfg(feature = "verif-hooks")]
+            crate::verif_hooks::emit(crate::verif_hooks::Event::LockAcquired {
+                lock: "cache_hit_count",
+                write: true,
+            });
             *count += 1;
             Some(prev_best_score)
         }
